@@ -89,6 +89,9 @@ CHECKS = {
  "C29": dict(cat="exploration", tech="metamorphic property testing: each generated (template, data) case is run with names differing only in letter case and with really different names (control); outcomes and renamed results must coincide",
    text="22 script templates (binary, calc, filter, keep, drop, rename, membership, group by / group except, aggr clause, analytic, joins, union, two statements, clause chains, sub, exists_in, if, datapoint ruleset) x 8 collision sites (two input measures, two identifiers, identifier vs measure, two input datasets, two results, result vs input, new component vs existing) over generated data with per-component distinct values.",
    note="The property is broken at its root on this tree (DuckDB identifiers are case-insensitive): three known findings, one per site class; any other difference from the control (wrong value, missing component, other error) is still a violation.", ref="§3 C29"),
+ "C23": dict(cat="exploration", tech="Hypothesis token-level mutation fuzzing of corpus and generated scripts + random text + nesting bombs + Hypothesis stateful (rule-based) parse/prettify histories; oracle = outcome class, error-location bounds, first-parse agreement",
+   text="create_ast on mutated, random and deeply nested texts returns an AST or raises a VTL error, a syntax error's line/column lie inside the input, and in histories of up to 20 parse / prettify calls over valid and broken texts every text parses to the same AST / error and prettifies to the same text as the first time.",
+   note="TRUSTED BASE: the parse tree and raw error record come from the parser stand-in (ANTLR Java interpreter over the repository's shipped ATN); crashes, hangs or memory errors inside the native extension (bindings.cpp) are not observable here - only the Python half (create_ast, AST construction, comments, error-location arithmetic, cross-parse state) is decided. Known finding: RecursionError beyond a few hundred nesting levels.", ref="§3 C23, §4"),
 }
 NOT_YET = "check not built yet in this session (work in progress, see DESIGN.md §5)"
 
